@@ -17,8 +17,24 @@ Oracles
     the harness.
   * container: WannierData (chk, bkvec, eig, amn, mmn + random extras) `to_npz` -> `from_npz`, `write` ->
     the three text readers; WannierDataSOC (up/down containers + SOC) `to_npz` -> `from_npz`.
+
+Widening review (classes added after the seeded rounds; every one is counted and required)
+  * reader options: `EIG/MMN.from_w90_file(selected_kpoints=...)` (list/tuple/array, unsorted, one element), `npar` 1,2,3,5,
+    omitted (MMN) / None (AMN), a `BKVectors` that was reloaded from npz or built for the selected k only, permuted b blocks;
+  * constructor forms: per-k data as list / dict / ndarray / list with None entries, `bk_reorder` as list / array / dict;
+  * `equals` must discriminate: changes within / beyond the tolerance (default and explicit), other NK, other k set, other bk_reorder;
+  * histories: second generation (text -> object -> text -> object, npz -> object -> npz -> object, pathlib paths),
+    `as_dict` -> `from_dict` in memory, `select_kpoints` / `select_bands` before saving, inputs unchanged at the end of the case;
+  * container: `to_npz(files=subset)`, `from_npz` (upper-case / tuple `files`, missing files with both values of
+    `ignore_missing_files`, `irreducible=True`), one container re-used after `set_file(overwrite=True)` / `unset_file`,
+    relative seedname, `select_bands` (index list / index array / band_start-band_end) before saving and writing,
+    `write` + `WIN.write` -> `WannierData.from_w90_files`;
+  * ranges: NK >= 100, NB / NW >= 100, real-valued AMN / MMN data, exact zeros / -0.0 / half-a-digit values / an all-zero k-point,
+    AMN with only some of the optional tags, magnitudes up to 1e5.
 """
+import copy
 import os
+import pathlib
 import shutil
 import sys
 import tempfile
@@ -41,6 +57,11 @@ class SerialPool:
     used = 0
 
     def __init__(self, processes=None, *a, **k):
+        # multiprocessing.Pool rejects anything but None or an integer >= 1; an exception raised here would count as a harness
+        # error (this file is the deepest frame), so the refusal is reported as what it is
+        if processes is not None and not (isinstance(processes, (int, np.integer)) and processes >= 1):
+            raise harness.Violation("from_w90_file:argument_of_multiprocessing.Pool",
+                                    f"the reader called multiprocessing.Pool({processes!r}), which the real Pool refuses")
         SerialPool.used += 1
 
     def map(self, func, iterable, chunksize=None):
@@ -103,6 +124,10 @@ def as_data(arrs, sel):
     return {int(ik): arrs[ik] for ik in sel}
 
 
+SPECIALS = (0.0, -0.0, 0.5e-12, -0.5e-12, 1.5e-12, 1e-13, -1e-13, 1.0, -1.0, 123456.789, -99999.9999999999995)
+objs_counts = {}      # generator counters of build_objects, moved into ctx by case()
+
+
 def build_objects(rng, mp, NB, NW, lattice, sel, scale, names):
     """name -> object; `sel` = None (all k) or a sorted list of k indices (sparse objects)"""
     from wannierberri.w90files import EIG, AMN, MMN, SPN, UIU, UHU, SIU, SHU, UNK, SOC, CheckPoint, WIN
@@ -125,8 +150,27 @@ def build_objects(rng, mp, NB, NW, lattice, sel, scale, names):
     def mk(shape, sc=scale):
         return as_data([cplx(rng, shape, sc) for _ in range(NK)], sel)
 
+    def special(arrs, real):
+        """(widening) values a formatted writer / a sparse container may treat specially: exact zeros, -0.0, half a unit of the
+        last printed digit, numbers with many integer digits, and one k-point whose block is entirely zero"""
+        if rng.random() < 0.3:
+            ctx_count("data_with_special_values")
+            for a in arrs:
+                flat = a.reshape(-1)
+                for _ in range(int(rng.integers(1, 4))):
+                    v = SPECIALS[int(rng.integers(len(SPECIALS)))]
+                    flat[int(rng.integers(flat.size))] = v if real else v + 1j * SPECIALS[int(rng.integers(len(SPECIALS)))]
+        if rng.random() < 0.12:
+            ctx_count("data_with_all_zero_kpoint")
+            arrs[int(rng.integers(len(arrs)))][...] = 0
+        return arrs
+
+    def ctx_count(name):
+        counts[name] = counts.get(name, 0) + 1
+
+    counts = {}
     if "EIG" in names:
-        objs["EIG"] = EIG(data=as_data([np.sort(rng.normal(size=NB)) * 5 * scale for _ in range(NK)], sel), **kw)
+        objs["EIG"] = EIG(data=as_data(special([np.sort(rng.normal(size=NB)) * 5 * scale for _ in range(NK)], True), sel), **kw)
     if "AMN" in names:
         tags = {}
         if rng.random() < 0.5:
@@ -134,13 +178,27 @@ def build_objects(rng, mp, NB, NW, lattice, sel, scale, names):
             tags = dict(positions=rng.uniform(0, 1, (NW, 3)), orbitals=orb, radial_nodes_list=rng.integers(0, 3, NW),
                         basis_list=rng.normal(size=(NW, 3, 3)), spread_list=list(rng.uniform(0.5, 2, NW)),
                         spinor=bool(rng.random() < 0.5))
-        objs["AMN"] = AMN(data=mk((NB, NW)), **kw, **tags)
+            if rng.random() < 0.4:      # (widening) only some of the optional tags given
+                for t in rng.choice(sorted(tags), int(rng.integers(1, 6)), replace=False):
+                    del tags[str(t)]
+                ctx_count("amn_some_optional_tags")
+        if rng.random() < 0.15:         # (widening) real-valued projections
+            arrs = [rng.normal(size=(NB, NW)) * scale for _ in range(NK)]
+            ctx_count("amn_real_dtype")
+        else:
+            arrs = [cplx(rng, (NB, NW), scale) for _ in range(NK)]
+        objs["AMN"] = AMN(data=as_data(special(arrs, not np.iscomplexobj(arrs[0])), sel), **kw, **tags)
     if "MMN" in names:
         reorder = None
         if rng.random() < 0.5:
             keys = range(NK) if sel is None else sel
             reorder = {int(ik): rng.permutation(NNB) for ik in keys}
-        objs["MMN"] = MMN(data=mk((NNB, NB, NB)), bk_reorder=reorder, **kw)
+        if rng.random() < 0.15:
+            arrs = [rng.normal(size=(NNB, NB, NB)) * scale for _ in range(NK)]
+            ctx_count("mmn_real_dtype")
+        else:
+            arrs = [cplx(rng, (NNB, NB, NB), scale) for _ in range(NK)]
+        objs["MMN"] = MMN(data=as_data(special(arrs, not np.iscomplexobj(arrs[0])), sel), bk_reorder=reorder, **kw)
     if "SPN" in names:
         objs["SPN"] = SPN(data=mk((NB, NB, 3)), **kw)
     for nm, cl in (("UXU", UXU), ("UIU", UIU), ("UHU", UHU)):
@@ -175,6 +233,7 @@ def build_objects(rng, mp, NB, NW, lattice, sel, scale, names):
                     atoms_frac=rng.uniform(0, 1, (2, 3)), atoms_names=["Fe", "Te"])
         objs["WIN"] = WIN.from_w90_file(seedname=None, data=data)
         objs["WIN"]["seedname"] = "verif"
+    objs_counts.update({k: objs_counts.get(k, 0) + v for k, v in counts.items()})
     return objs, bk, kpts
 
 
@@ -292,9 +351,40 @@ def permute_mmn_file(path_in, path_out, NB, NK, NNB, perms):
 
 # ------------------------------------------------------------------ the case
 
-def text_roundtrip(ctx, tmp, objs, bk, wit, rng):
+def same_text(path_a, path_b, skip_first_line=False):
+    """token by token; numbers are compared by value (the readers lose the sign of a zero: -0.0 + 0.0j*... -> 0.0)"""
+    a, b = open(path_a).read().split("\n"), open(path_b).read().split("\n")
+    if skip_first_line:     # the date line of the .amn header
+        a, b = a[1:], b[1:]
+    if a == b:
+        return True
+    if len(a) != len(b):
+        return False
+    for la, lb in zip(a, b):
+        if la == lb:
+            continue
+        ta, tb = la.split(), lb.split()
+        if len(ta) != len(tb):
+            return False
+        for x, y in zip(ta, tb):
+            if x != y:
+                try:
+                    if float(x) != float(y):
+                        return False
+                except ValueError:
+                    return False
+    return True
+
+
+def max_abs(data):
+    return max((float(np.max(np.abs(v))) for v in data.values() if np.size(v)), default=0.0)
+
+
+def text_roundtrip(ctx, tmp, objs, bk, wit, rng, stem="txt"):
     from wannierberri.w90files import EIG, AMN, MMN
-    seed = os.path.join(tmp, "txt")
+    seed = os.path.join(tmp, stem)
+    seed2 = seed + "_gen2"
+    second = rng.random() < 0.5     # (widening) second generation: the object that was read is written and read again
     eig, amn, mmn = objs["EIG"], objs["AMN"], objs["MMN"]
     NK, NB, NNB = eig.NK, eig.NB, bk.NNB
     # EIG
@@ -311,6 +401,18 @@ def text_roundtrip(ctx, tmp, objs, bk, wit, rng):
     if (e2.NK, e2.NB) != (NK, NB):
         ctx.violation("EIG.to_w90_file/from_w90_file:sizes", f"(NK,NB) {(NK, NB)} -> {(e2.NK, e2.NB)}", wit)
     fixed_close(ctx, "EIG.to_w90_file/from_w90_file:data", eig.data, e2.data, 12, "eig", wit)
+    if second:
+        e2.to_w90_file(seed2)
+        e3 = EIG.from_w90_file(seed2)
+        ctx.count("text_second_generation")
+        fixed_close(ctx, "EIG.to_w90_file/from_w90_file:second_generation", e2.data, e3.data, 12, "eig written from the object that was read", wit)
+        # <= 15 significant digits: the decimal string is a fixed point of read -> write
+        if max_abs(eig.data) < 1000:
+            ctx.ev()
+            ctx.count("text_second_generation_bytes")
+            if not same_text(seed + ".eig", seed2 + ".eig"):
+                ctx.violation("EIG.to_w90_file/from_w90_file:second_generation", "the .eig file written from the object read from a .eig "
+                              "file differs from that file", wit)
     # AMN
     amn.to_w90_file(seed)
     a2 = AMN.from_w90_file(seed, npar=1)
@@ -323,6 +425,15 @@ def text_roundtrip(ctx, tmp, objs, bk, wit, rng):
     if (a2.NK, a2.NB, a2.NW) != (amn.NK, amn.NB, amn.NW):
         ctx.violation("AMN.to_w90_file/from_w90_file:sizes", f"(NK,NB,NW) {(amn.NK, amn.NB, amn.NW)} -> {(a2.NK, a2.NB, a2.NW)}", wit)
     fixed_close(ctx, "AMN.to_w90_file/from_w90_file:data", amn.data, a2.data, 12, "amn", wit)
+    if second:
+        a2.to_w90_file(seed2)
+        a3 = AMN.from_w90_file(seed2, npar=1)
+        fixed_close(ctx, "AMN.to_w90_file/from_w90_file:second_generation", a2.data, a3.data, 12, "amn written from the object that was read", wit)
+        if max_abs(amn.data) < 1000:
+            ctx.ev()
+            if not same_text(seed + ".amn", seed2 + ".amn", skip_first_line=True):
+                ctx.violation("AMN.to_w90_file/from_w90_file:second_generation", "the .amn file written from the object read from a .amn "
+                              "file differs from that file", wit)
     # MMN
     try:
         mmn.to_w90_file(seed, bk)
@@ -345,11 +456,17 @@ def text_roundtrip(ctx, tmp, objs, bk, wit, rng):
         if not np.array_equal(np.asarray(m2.bk_reorder[ik]), np.arange(NNB)):
             ctx.violation("MMN.to_w90_file/from_w90_file:bk_reorder", f"file written in bkvec order read with reorder {m2.bk_reorder[ik]} at ik={ik}", wit)
             break
+    if second:      # repr round trip is exact: the second file is the first one
+        m2.to_w90_file(seed2, bk)
+        ctx.ev()
+        if not same_text(seed + ".mmn", seed2 + ".mmn"):
+            ctx.violation("MMN.to_w90_file/from_w90_file:second_generation", "the .mmn file written from the object read from a .mmn "
+                          "file differs from that file", wit)
     # the same file with the neighbour blocks permuted (harness-side rewrite)
     if rng.random() < 0.5:
         return
     perms = [rng.permutation(NNB) for _ in range(NK)]
-    permute_mmn_file(seed + ".mmn", os.path.join(tmp, "perm.mmn"), NB, NK, NNB, perms)
+    permute_mmn_file(seed + ".mmn", os.path.join(tmp, "perm.mmn"), mmn.NB, NK, NNB, perms)
     m3 = MMN.from_w90_file(os.path.join(tmp, "perm"), bkvec=bk, npar=1)
     ctx.count("mmn_permuted_file")
     fixed_close(ctx, "MMN.from_w90_file:permuted_neighbour_blocks", mmn.data, m3.data, None, "mmn read from a file with permuted b blocks", wit)
@@ -358,9 +475,16 @@ def text_roundtrip(ctx, tmp, objs, bk, wit, rng):
         if not np.array_equal(np.asarray(m3.bk_reorder[ik]), np.argsort(perms[ik])):
             ctx.violation("MMN.from_w90_file:permuted_neighbour_blocks", f"bk_reorder {m3.bk_reorder[ik]} expected {np.argsort(perms[ik])} at ik={ik}", wit)
             break
+    if second:      # the reader undoes the permutation: writing its result gives the file in bkvec order again
+        m3.to_w90_file(seed2 + "p", bk)
+        ctx.ev()
+        ctx.count("mmn_permuted_file_written_again")
+        if not same_text(seed + ".mmn", seed2 + "p.mmn"):
+            ctx.violation("MMN.from_w90_file:permuted_neighbour_blocks", "the object read from the file with permuted b blocks, written "
+                          "again, does not give the file in bkvec order", wit)
 
 
-def npz_roundtrip(ctx, tmp, objs, wit, sparse):
+def npz_roundtrip(ctx, tmp, objs, wit, sparse, rng=None):
     for name, obj in objs.items():
         path = os.path.join(tmp, f"obj_{name}_{int(sparse)}.npz")
         obj.to_npz(path)
@@ -369,6 +493,16 @@ def npz_roundtrip(ctx, tmp, objs, wit, sparse):
         ctx.count(f"npz_{name}")
         if sparse:
             ctx.count("npz_sparse")
+        if rng is not None and rng.random() < 0.5:
+            # (widening) second generation: the loaded object is saved again (half of the time to a pathlib.Path) and loaded
+            path2 = os.path.join(tmp, f"obj2_{name}_{int(sparse)}.npz")
+            if rng.random() < 0.5:
+                path2 = pathlib.Path(path2)
+                ctx.count("npz_pathlib")
+            new.to_npz(path2)
+            new2 = type(obj).from_npz(path2)
+            compare_objects(ctx, f"{name}.to_npz/from_npz:second_generation", obj, new2, wit)
+            ctx.count("npz_twice")
 
 
 def make_container(objs, extras, irreducible):
@@ -474,36 +608,603 @@ def soc_container_roundtrip(ctx, tmp, rng, objs_up, objs_dw, wit):
     ctx.count("wandata_soc")
 
 
+# ------------------------------------------------------------------ widening review: reader options
+
+def sub(d, keys):
+    return {int(k): d[int(k)] for k in keys}
+
+
+def intkeys(d):
+    return {int(k): v for k, v in d.items()}
+
+
+def draw_selection(rng, NK):
+    """a documented `selected_kpoints` argument: (indices, the form in which they are passed)"""
+    kind = int(rng.integers(5))
+    if kind == 0 or NK == 1:
+        sel = [int(rng.integers(NK))]                                        # one element
+    elif kind == 1:
+        sel = [int(i) for i in rng.permutation(NK)]                          # all, unsorted
+    elif kind == 2:
+        sel = [NK - 1] + ([0] if NK > 1 and rng.random() < 0.5 else [])      # last (and first), descending
+    else:
+        sel = [int(i) for i in rng.choice(NK, int(rng.integers(1, NK)), replace=False)]   # unsorted proper subset
+    form = int(rng.integers(4))
+    arg = [list(sel), tuple(sel), np.array(sel), [np.int64(i) for i in sel]][form]
+    return sel, arg, ("list", "tuple", "ndarray", "list of np.int64")[form]
+
+
+def reader_options(ctx, tmp, objs, bk, kpts, lattice, mp, wit, rng, real_pool):
+    """the files `txt.eig/.amn/.mmn` (written from `objs` by the first text round trip) read with the documented reader options"""
+    from wannierberri.w90files import EIG, AMN, MMN
+    from wannierberri.w90files.bkvectors import BKVectors
+    seed = os.path.join(tmp, "txt")
+    eig, amn, mmn = objs["EIG"], objs["AMN"], objs["MMN"]
+    NK, NB, NNB = eig.NK, eig.NB, bk.NNB
+    # ---- EIG: selected_kpoints
+    sel, arg, form = draw_selection(rng, NK)
+    w = dict(wit, selected_kpoints=sel, form=form)
+    e = EIG.from_w90_file(seed, selected_kpoints=arg)
+    ctx.count("eig_selected_kpoints")
+    ctx.ev()
+    if (e.NK, e.NB) != (NK, NB):
+        ctx.violation("EIG.from_w90_file:selected_kpoints", f"(NK,NB) {(NK, NB)} -> {(e.NK, e.NB)}", w)
+    fixed_close(ctx, "EIG.from_w90_file:selected_kpoints", sub(eig.data, sel), intkeys(e.data), 12, "eig read with selected_kpoints", w)
+    # ---- AMN: npar
+    npar = [2, 1][int(rng.integers(2))] if real_pool else [None, 2, 3, 7][int(rng.integers(4))]
+    a = AMN.from_w90_file(seed, npar=npar)
+    ctx.count("amn_npar_varied")
+    ctx.ev()
+    if (a.NK, a.NB, a.NW) != (amn.NK, amn.NB, amn.NW):
+        ctx.violation("AMN.from_w90_file:npar", f"(NK,NB,NW) {(amn.NK, amn.NB, amn.NW)} -> {(a.NK, a.NB, a.NW)} with npar={npar}", wit)
+    fixed_close(ctx, "AMN.from_w90_file:npar", amn.data, a.data, 12, f"amn read with npar={npar}", dict(wit, npar=npar))
+    # ---- MMN: npar, selected_kpoints, history of the BKVectors object, permuted b blocks
+    for rep in range(2):
+        kw = {}
+        if real_pool:
+            npar = int(rng.integers(1, 3))
+            kw["npar"] = npar
+        else:
+            npar = [None, 1, 2, 3, 5][int(rng.integers(5))]
+            if npar is not None:
+                kw["npar"] = npar       # None: the argument is omitted (documented default: all cores)
+        chunk = 4 * (npar if npar is not None else state_cpu_count())
+        ctx.count("mmn_chunk_exact" if (NK * NNB) % chunk == 0 else "mmn_chunk_partial")
+        if npar != 1:
+            ctx.count("mmn_npar_varied")
+        if rep == 0:
+            sel, arg, form = list(range(NK)), None, "None"
+        else:
+            sel, arg, form = draw_selection(rng, NK)
+            kw["selected_kpoints"] = arg
+            ctx.count("mmn_selected_kpoints")
+        hist = int(rng.integers(3))
+        if hist == 0:
+            bkx, hname = bk, "the BKVectors object used for writing"
+        elif hist == 1:
+            path = os.path.join(tmp, "bk_for_reader.npz")
+            bk.to_npz(path)
+            bkx, hname = BKVectors.from_npz(path), "BKVectors reloaded from npz"
+            ctx.count("mmn_reader_bkvec_reloaded")
+        else:
+            recip = 2 * np.pi * np.linalg.inv(lattice).T
+            bkx = BKVectors.from_kpoints(recip, np.array(mp), kpts, kptirr=sorted(sel))
+            hname = "BKVectors built for the selected k-points only (kptirr)"
+            ctx.count("mmn_reader_sparse_bkvec")
+        permuted = rng.random() < 0.5
+        if permuted:
+            perms = [rng.permutation(NNB) for _ in range(NK)]
+            permute_mmn_file(seed + ".mmn", os.path.join(tmp, "perm2.mmn"), NB, NK, NNB, perms)
+            fname = os.path.join(tmp, "perm2")
+        else:
+            perms = [np.arange(NNB) for _ in range(NK)]
+            fname = seed
+        w = dict(wit, npar="omitted" if npar is None else npar, selected_kpoints=sel, form=form, bkvec=hname, permuted_blocks=permuted)
+        m = MMN.from_w90_file(fname, bkvec=bkx, **kw)
+        mech = "MMN.from_w90_file:options"
+        ctx.ev()
+        if (m.NK, m.NB, m.NNB) != (NK, NB, NNB):
+            ctx.violation(mech, f"(NK,NB,NNB) {(NK, NB, NNB)} -> {(m.NK, m.NB, m.NNB)}", w)
+        fixed_close(ctx, mech, sub(mmn.data, sel), intkeys(m.data), None, "mmn read with reader options", w)
+        ctx.ev()
+        ro = intkeys(m.bk_reorder)
+        if set(ro) != set(sel):
+            ctx.violation(mech, f"bk_reorder has the k-points {sorted(ro)}, selected {sorted(sel)}", w)
+        else:
+            for ik in sel:
+                if not np.array_equal(np.asarray(ro[ik]), np.argsort(perms[ik])):
+                    ctx.violation(mech, f"bk_reorder {ro[ik]} expected {np.argsort(perms[ik])} at ik={ik}", w)
+                    break
+        if hist == 1:       # ... and the writer given the reloaded BKVectors writes the same file
+            mmn.to_w90_file(os.path.join(tmp, "bkhist"), bkx)
+            ctx.ev()
+            if not same_text(seed + ".mmn", os.path.join(tmp, "bkhist.mmn")):
+                ctx.violation("MMN.to_w90_file:bkvec_history", "the .mmn file written with a BKVectors object reloaded from npz differs", w)
+
+
+def state_cpu_count():
+    import multiprocessing
+    return multiprocessing.cpu_count()
+
+
+# ------------------------------------------------------------------ widening review: constructor argument forms
+
+def ctor_forms(ctx, tmp, objs, bk, wit, rng):
+    """the documented forms of the per-k data (`dict | list`, arrays as returned by the readers, lists with None) give one object"""
+    from wannierberri.w90files import EIG, AMN, MMN
+    eig, amn, mmn = objs["EIG"], objs["AMN"], objs["MMN"]
+    NK = eig.NK
+    tags = {t: getattr(amn, t) for t in AMN.npz_tags_optional if getattr(amn, t, None) is not None}
+    miss = [bool(rng.random() < 0.3) for _ in range(NK)]
+    if all(miss):
+        miss[int(rng.integers(NK))] = False
+    for name, cl, obj, extra in (("EIG", EIG, eig, {}), ("AMN", AMN, amn, tags), ("MMN", MMN, mmn, None)):
+        arrs = [obj.data[k] for k in range(NK)]
+        reo = [mmn.bk_reorder[k] for k in range(NK)]
+        form = int(rng.integers(3))
+        w = dict(wit, form=("ndarray", "dict", "list with None entries")[form])
+        if form == 0:
+            kw = dict(data=np.array(arrs))
+            if name == "MMN":
+                kw["bk_reorder"] = [reo, np.array(reo), {k: reo[k] for k in range(NK)}][int(rng.integers(3))]
+            ref = obj
+        elif form == 1:
+            kw = dict(data={k: arrs[k] for k in reversed(range(NK))}, NK=NK)
+            if name == "MMN":
+                kw["bk_reorder"] = [reo, {k: reo[k] for k in range(NK)}][int(rng.integers(2))]
+            ref = obj
+        else:
+            kw = dict(data=[None if miss[k] else arrs[k] for k in range(NK)])
+            kr = dict(data={k: arrs[k] for k in range(NK) if not miss[k]}, NK=NK)
+            if name == "MMN":
+                kw["bk_reorder"] = [None if miss[k] else reo[k] for k in range(NK)]
+                kr["bk_reorder"] = {k: reo[k] for k in range(NK) if not miss[k]}
+            ref = cl(**kr, **(extra or {}))
+        new = cl(**kw, **(extra or {}))
+        compare_objects(ctx, f"{name}.__init__:data_forms", ref, new, w)
+        ctx.count("ctor_forms")
+        if form == 2:
+            path = os.path.join(tmp, f"form_{name}.npz")
+            new.to_npz(path)
+            compare_objects(ctx, f"{name}.to_npz/from_npz", new, cl.from_npz(path), w)
+        else:   # the text file does not depend on the form either
+            stem = os.path.join(tmp, "form")
+            if name == "MMN":
+                new.to_w90_file(stem, bk)
+            else:
+                new.to_w90_file(stem)
+            ctx.ev()
+            if not same_text(os.path.join(tmp, "txt." + cl.extension), stem + "." + cl.extension, skip_first_line=(name == "AMN")):
+                ctx.violation(f"{name}.__init__:data_forms", f"the .{cl.extension} file of an object built from another form of the same data differs", w)
+
+
+# ------------------------------------------------------------------ widening review: `equals` must discriminate
+
+def call_equals(ctx, name, a, b, wit, **kw):
+    ctx.ev()
+    try:
+        res = a.equals(b, **kw)
+    except Exception as e:
+        ctx.violation(f"{name}.equals:raises", f"{name}.equals raised {type(e).__name__}: {e}", wit)
+        return None
+    return bool(res[0] if isinstance(res, tuple) else res)
+
+
+def equals_controls(ctx, objs, wit, rng):
+    """the class's own `equals` is one of the two oracles of the round trips: it has to say False for objects that differ
+    (beyond the tolerance, in any k-point) and True within the tolerance, for the default and for an explicit tolerance"""
+    others = [n for n in objs if n not in ("EIG", "AMN", "MMN", "BKVectors", "CheckPoint", "WIN") and hasattr(objs[n], "equals")]
+    names = ["EIG", "AMN", "MMN"] + ([others[int(rng.integers(len(others)))]] if others else [])
+    for name in names:
+        a = objs[name]
+        tol = [None, 1e-3, 1e-10][int(rng.integers(3))]
+        kw = {} if tol is None else dict(tolerance=tol)
+        t = 1e-8 if tol is None else tol
+        keys = sorted(a.data)
+        ik = keys[int(rng.integers(len(keys)))]
+        pos = tuple(int(rng.integers(n)) for n in a.data[ik].shape)
+        x = a.data[ik][pos]
+        w = dict(wit, cls=name, tolerance=tol, ik=ik, element=pos)
+        mech = f"{name}.equals:control"
+        ctx.count("equals_controls")
+        b = copy.deepcopy(a)
+        if call_equals(ctx, name, a, b, w, **kw) is False:
+            ctx.violation(mech, "an object is not equal to its deep copy", w)
+        b.data[ik][pos] = x + 0.3 * t
+        for p, q in ((a, b), (b, a)):
+            if call_equals(ctx, name, p, q, w, **kw) is False:
+                ctx.violation(mech, f"one element changed by 0.3*tolerance ({0.3 * t:.1e}): equals says False", w)
+        delta = 10 * t + 1e-3 * abs(x)
+        b.data[ik][pos] = x + delta
+        for p, q in ((a, b), (b, a)):
+            if call_equals(ctx, name, p, q, w, **kw) is True:
+                ctx.violation(mech, f"one element (k-point {ik} of {keys}) changed by {delta:.1e} = 10*tolerance + 1e-3*|value|: equals says True", w)
+        b = copy.deepcopy(a)
+        b.NK = a.NK + 1
+        if call_equals(ctx, name, a, b, w, **kw) is True:
+            ctx.violation(mech, "objects with different NK: equals says True", w)
+        if len(keys) > 1:
+            b = copy.deepcopy(a)
+            for tag in type(a).npz_keys_dict_int:
+                del getattr(b, tag)[ik]
+            for p, q in ((a, b), (b, a)):
+                if call_equals(ctx, name, p, q, w, **kw) is True:
+                    ctx.violation(mech, f"one object lacks the k-point {ik}: equals says True", w)
+        if name == "MMN" and a.NNB > 1:
+            b = copy.deepcopy(a)
+            r = np.array(b.bk_reorder[ik])
+            r[[0, 1]] = r[[1, 0]]
+            b.bk_reorder[ik] = r
+            if call_equals(ctx, name, a, b, w, **kw) is True:
+                ctx.violation(mech, "bk_reorder differs at one k-point: equals (check_reorder default) says True", w)
+            if call_equals(ctx, name, a, b, w, check_reorder=False, **kw) is False:
+                ctx.violation(mech, "only bk_reorder differs: equals(check_reorder=False) says False", w)
+
+
+# ------------------------------------------------------------------ widening review: histories of single objects
+
+SELECTABLE = ("EIG", "AMN", "MMN", "SPN", "UXU", "UIU", "UHU", "SXU", "SIU", "SHU", "UNK")
+
+
+def draw_bands(rng, NB):
+    n = int(rng.integers(1, NB + 1))
+    sb = sorted(int(i) for i in rng.choice(NB, n, replace=False))
+    return sb, [sb, np.array(sb)][int(rng.integers(2))]
+
+
+def object_histories(ctx, tmp, objs, bk, wit, rng):
+    """objects that went through other public calls before they are saved / written"""
+    NK, NB = objs["EIG"].NK, objs["EIG"].NB
+    # in memory: as_dict -> from_dict (the two halves of the npz persistence without the file)
+    for name, obj in objs.items():
+        new = type(obj).from_dict(obj.as_dict())
+        compare_objects(ctx, f"{name}.as_dict/from_dict", obj, new, wit)
+        ctx.count("dict_roundtrip")
+    # select_kpoints -> npz (the object must be the one built directly for those k-points)
+    if NK > 1:
+        sel = sorted(int(i) for i in rng.choice(NK, int(rng.integers(1, NK)), replace=False))
+        w = dict(wit, select_kpoints=sel)
+        for name in SELECTABLE:
+            if name not in objs or rng.random() < 0.5:
+                continue
+            obj = copy.deepcopy(objs[name])
+            obj.select_kpoints([sel, tuple(sel), np.array(sel)][int(rng.integers(3))])
+            ctx.ev()
+            for tag in type(obj).npz_keys_dict_int:
+                if sorted(int(k) for k in getattr(obj, tag)) != sel:
+                    ctx.violation(f"{name}.select_kpoints", f"{tag} holds the k-points {sorted(getattr(obj, tag))} after select_kpoints({sel})", w)
+            path = os.path.join(tmp, f"selk_{name}.npz")
+            obj.to_npz(path)
+            new = type(obj).from_npz(path)
+            compare_objects(ctx, f"{name}.to_npz/from_npz", obj, new, w)
+            ctx.ev()
+            if new.NK != NK or not all(same(objs[name].data[k], new.data[k]) for k in sel):
+                ctx.violation(f"{name}.to_npz/from_npz", "object saved after select_kpoints: NK or the data of the kept k-points changed", w)
+            ctx.count("npz_after_select_kpoints")
+    # select_bands -> text and npz
+    sb, arg = draw_bands(rng, NB)
+    w = dict(wit, select_bands=sb)
+    sobjs = {}
+    for name in ("EIG", "AMN", "MMN"):
+        sobjs[name] = copy.deepcopy(objs[name])
+        sobjs[name].select_bands(arg)
+    text_roundtrip(ctx, tmp, sobjs, bk, dict(w, variant="objects written after select_bands"), rng, stem="selb")
+    for name in ("EIG", "AMN", "MMN"):
+        path = os.path.join(tmp, f"selb_{name}.npz")
+        sobjs[name].to_npz(path)
+        compare_objects(ctx, f"{name}.to_npz/from_npz", sobjs[name], type(sobjs[name]).from_npz(path), w)
+    ctx.count("text_after_select_bands")
+
+
+def inputs_unchanged(ctx, snapshot, objs, wit):
+    for name, old in snapshot.items():
+        ctx.ev()
+        now = vars(objs[name])
+        for k, x in vars(old).items():
+            if k not in now or not same(x, now[k]):
+                ctx.violation(f"inputs_modified:{name}", f"{name}.{k} of the original object was changed by writing / saving / reading", wit)
+    ctx.count("inputs_unchanged_checked")
+
+
+# ------------------------------------------------------------------ widening review: container options and histories
+
+def files_form(rng, keys):
+    keys = [str(k) for k in keys]
+    form = int(rng.integers(3))
+    if form == 0:
+        return list(keys)
+    if form == 1:
+        return tuple(keys)
+    return [k.upper() if rng.random() < 0.5 else k for k in keys]
+
+
+def load_container(ctx, mech, seed, wit, expect_error=None, **kw):
+    """WannierData.from_npz; returns the container or None (after recording a violation / an expected exception)"""
+    from wannierberri.w90files import WannierData
+    ctx.ev()
+    with warnings.catch_warnings():
+        warnings.simplefilter("ignore")
+        try:
+            w2 = WannierData.from_npz(seed, **kw)
+        except (FileNotFoundError, ValueError) as e:
+            if expect_error is not None and isinstance(e, expect_error):
+                return None
+            ctx.violation(mech, f"from_npz({kw}) raised {type(e).__name__}: {e}", wit)
+            return None
+    if expect_error is not None:
+        ctx.violation(mech, f"from_npz({kw}) did not raise {expect_error.__name__}", wit)
+        return None
+    return w2
+
+
+def compare_subset(ctx, tag, wd, w2, wit, expect_keys, irreducible=False):
+    ctx.ev()
+    if set(w2._files.keys()) != set(expect_keys):
+        ctx.violation(f"{tag}:files", f"files {sorted(expect_keys)} expected, loaded {sorted(w2._files.keys())}", wit)
+    for key in expect_keys:
+        if key in w2._files:
+            compare_objects(ctx, f"{tag}[{key}]", wd.get_file(key), w2.get_file(key), wit)
+    ctx.ev()
+    if bool(w2.irreducible) != bool(irreducible):
+        ctx.violation(f"{tag}:flags", f"irreducible: expected {irreducible}, loaded {w2.irreducible}", wit)
+
+
+NEED_BKVEC = ("mmn", "uhu", "uiu", "shu", "siu")
+
+
+def container_options(ctx, tmp, rng, objs, bk, wit):
+    from wannierberri.w90files import EIG
+    from wannierberri.w90files.wandata import FILES_CLASSES
+    extras = [e for e in EXTRA_FILES if e[1] in objs and rng.random() < 0.5]
+    wd = make_container(objs, extras, irreducible=False)
+    keys = ["chk", "bkvec", "eig", "amn", "mmn"] + [e[0] for e in extras]
+    cdir = os.path.join(tmp, "copt")
+    seed = os.path.join(cdir, "seed")
+    # ---- to_npz(files=subset [+ a file that is not set])
+    subset = [k for k in keys if rng.random() < 0.6] or [keys[int(rng.integers(len(keys)))]]
+    notset = [k for k in ("uiu", "uhu", "siu", "shu", "spn", "unk") if k not in keys]
+    ask = list(subset) + ([notset[int(rng.integers(len(notset)))]] if notset and rng.random() < 0.5 else [])
+    ask = [ask[i] for i in rng.permutation(len(ask))]
+    w = dict(wit, files_set=keys, to_npz_files=ask)
+    with warnings.catch_warnings():
+        warnings.simplefilter("ignore")
+        wd.to_npz(seed, files=tuple(ask) if rng.random() < 0.5 else list(ask))
+    ctx.count("wandata_to_npz_subset")
+    ctx.ev()
+    on_disk = sorted(os.listdir(cdir)) if os.path.isdir(cdir) else []
+    expected = sorted(f"seed.{FILES_CLASSES[k].extension}.npz" for k in subset)
+    if on_disk != expected:
+        ctx.violation("WannierData.to_npz:files", f"to_npz(files={ask}) wrote {on_disk}, expected {expected}", w)
+        return
+    # ---- from_npz: forms of `files`, missing files, irreducible
+    variant = int(rng.integers(4))
+    irr = bool(rng.random() < 0.3)
+    kwi = dict(irreducible=True) if irr else {}
+    auto_bk = ["bkvec"] if "bkvec" in subset else []
+    if variant == 0:        # exactly the files that exist, in another form / case
+        ask2 = files_form(rng, [subset[i] for i in rng.permutation(len(subset))])
+        w2 = load_container(ctx, "WannierData.from_npz:options", seed, dict(w, from_npz_files=ask2), files=ask2, **kwi)
+        expect = set(subset) | (set(auto_bk) if set(subset) & set(NEED_BKVEC) else set())
+    elif variant == 1:      # all files asked for, missing ones ignored (documented default)
+        ask2 = files_form(rng, keys)
+        w2 = load_container(ctx, "WannierData.from_npz:options", seed, dict(w, from_npz_files=ask2), files=ask2, **kwi)
+        expect = set(subset)
+    elif variant == 2:      # all files asked for, missing ones are an error
+        ask2 = files_form(rng, keys)
+        missing = [k for k in keys if k not in subset]
+        w2 = load_container(ctx, "WannierData.from_npz:options", seed, dict(w, from_npz_files=ask2, ignore_missing_files=False),
+                            expect_error=FileNotFoundError if missing else None, files=ask2, ignore_missing_files=False, **kwi)
+        expect = set(subset)
+        ctx.count("wandata_from_npz_missing_is_error" if missing else "wandata_from_npz_nothing_missing")
+    else:                   # default file list, missing ones are an error: documented ValueError
+        ask2 = None
+        w2 = load_container(ctx, "WannierData.from_npz:options", seed, dict(w, from_npz_files=None, ignore_missing_files=False),
+                            expect_error=ValueError, ignore_missing_files=False)
+    ctx.count("wandata_from_npz_options")
+    if w2 is not None:
+        compare_subset(ctx, "WannierData.from_npz:options", wd, w2, dict(w, from_npz_files=ask2, irreducible=irr), expect, irreducible=irr)
+        if irr:
+            ctx.count("wandata_from_npz_irreducible_given")
+    # ---- the same container re-used: files replaced / removed, saved to the same seedname again
+    NK, NB = objs["EIG"].NK, objs["EIG"].NB
+    eig_new = EIG(data=[rng.normal(size=NB) for _ in range(NK)])
+    with warnings.catch_warnings():
+        warnings.simplefilter("ignore")
+        wd.set_file("eig", eig_new, overwrite=True)
+        keys2 = list(keys)
+        if extras and rng.random() < 0.7:
+            gone = extras[int(rng.integers(len(extras)))][0]
+            wd.unset_file(gone)
+            keys2.remove(gone)
+        wd.to_npz(seed)
+    w = dict(wit, history="set_file('eig', overwrite=True)" + (" and unset_file" if len(keys2) < len(keys) else "") + ", to_npz to the same seedname")
+    w2 = load_container(ctx, "WannierData.to_npz/from_npz:reused", seed, w, files=list(keys2), ignore_missing_files=False)
+    if w2 is not None:
+        compare_subset(ctx, "WannierData.to_npz/from_npz:reused", wd, w2, w, keys2)
+        ctx.ev()
+        if w2.has_file("eig") and not same(w2.get_file("eig").data, eig_new.data):
+            ctx.violation("WannierData.to_npz/from_npz:reused", "the eig file loaded is not the one set last", w)
+    ctx.count("wandata_reused")
+    # ---- relative seedname (no directory part)
+    if rng.random() < 0.4:
+        cwd = os.getcwd()
+        rdir = os.path.join(tmp, "rel")
+        os.makedirs(rdir, exist_ok=True)
+        w = dict(wit, seedname="relseed (relative, no directory)")
+        w2 = None
+        try:
+            os.chdir(rdir)
+            ctx.ev()
+            try:
+                wd.to_npz("relseed")
+            except OSError as e:
+                # (recorded here: the harness attributes an exception raised inside a frozen stdlib module - `<frozen os>` resolves
+                #  below the working directory /verif - to the harness, not to the repository code that called it)
+                ctx.violation("WannierData.to_npz:relative_seedname:raises", f"to_npz('relseed') raised {type(e).__name__}: {e}", w)
+            else:
+                w2 = load_container(ctx, "WannierData.to_npz/from_npz:relative_seedname", "relseed", w, files=list(keys2),
+                                    ignore_missing_files=False)
+        finally:
+            os.chdir(cwd)
+        if w2 is not None:
+            compare_subset(ctx, "WannierData.to_npz/from_npz:relative_seedname", wd, w2, w, keys2)
+        ctx.count("wandata_relative_seedname")
+
+
+def container_select_bands(ctx, tmp, rng, objs, bk, kpts, lattice, mp, wit):
+    """container -> select_bands (documented argument forms) -> to_npz/from_npz and write -> readers"""
+    from wannierberri.w90files import EIG, AMN, MMN, CheckPoint
+    NK, NB, NW = objs["EIG"].NK, objs["EIG"].NB, objs["AMN"].NW
+    extras = [e for e in EXTRA_FILES if e[1] in objs and rng.random() < 0.4]
+    cobjs = {n: copy.deepcopy(objs[n]) for n in ["BKVectors", "EIG", "AMN", "MMN"] + [e[1] for e in extras]}
+    cobjs["CheckPoint"] = CheckPoint(real_lattice=lattice, num_wann=NW, num_bands=NB, kpt_red=kpts, mp_grid=np.array(mp))
+    wd = make_container(cobjs, extras, irreducible=False)
+    keys = ["chk", "bkvec", "eig", "amn", "mmn"] + [e[0] for e in extras]
+    # (the documented boolean-mask form of `selected_bands` raises an AssertionError in WannierData.select_bands on the unchanged
+    #  tree unless every band is selected - a defect of select_bands, not of persistence: not drawn here, reported by the review)
+    mode = int(rng.integers(3))
+    if mode < 2:
+        sb, arg = draw_bands(rng, NB)
+        if mode == 1:
+            arg = list(sb)
+        kw = dict(selected_bands=arg)
+    else:
+        lo = int(rng.integers(0, NB))
+        hi = int(rng.integers(lo + 1, NB + 1))
+        sb = list(range(lo, hi))
+        kw = {}
+        if lo > 0 or rng.random() < 0.5:
+            kw["band_start"] = lo
+        if hi < NB or rng.random() < 0.5:
+            kw["band_end"] = hi
+    w = dict(wit, history=f"WannierData.select_bands({ {k: (v.tolist() if isinstance(v, np.ndarray) else v) for k, v in kw.items()} })")
+    ret = wd.select_bands(**kw)
+    if [int(i) for i in ret] != sb:     # which bands are kept is not the subject of C19; whatever was kept must persist
+        ctx.count("info_not_judged:select_bands_kept_other_bands_than_requested")
+    nsel = wd.eig.NB
+    seed = os.path.join(tmp, "csel", "seed")
+    wd.to_npz(seed)
+    w2 = load_container(ctx, "WannierData.to_npz/from_npz:after_select_bands", seed, w, files=list(keys), ignore_missing_files=False)
+    if w2 is not None:
+        compare_containers(ctx, "WannierData.to_npz/from_npz:after_select_bands", wd, w2, w, keys)
+    seedw = os.path.join(tmp, "csel", "written")
+    wd.write(seedw, files=("eig", "amn", "mmn") if rng.random() < 0.5 else ["mmn", "amn", "eig"])
+    e2, a2 = EIG.from_w90_file(seedw), AMN.from_w90_file(seedw, npar=1)
+    m2 = MMN.from_w90_file(seedw, bkvec=bk, npar=1)
+    mech = "WannierData.write:after_select_bands"
+    ctx.ev()
+    if (e2.NK, e2.NB, a2.NB, a2.NW, m2.NB, m2.NNB) != (NK, nsel, nsel, NW, nsel, bk.NNB):
+        ctx.violation(mech, f"sizes read (NK, NB eig, NB amn, NW, NB mmn, NNB) = {(e2.NK, e2.NB, a2.NB, a2.NW, m2.NB, m2.NNB)}", w)
+    else:
+        fixed_close(ctx, mech, wd.eig.data, e2.data, 12, "eig", w)
+        fixed_close(ctx, mech, wd.amn.data, a2.data, 12, "amn", w)
+        fixed_close(ctx, mech, wd.mmn.data, m2.data, None, "mmn", w)
+    ctx.count("wandata_after_select_bands")
+
+
+def container_from_text(ctx, tmp, rng, objs, bk, wit):
+    """WannierData.write + WIN.write -> WannierData.from_w90_files (the container's reader of the text files)"""
+    from wannierberri.w90files import WannierData
+    wd = make_container(objs, [], irreducible=False)
+    seed = os.path.join(tmp, "w90", "seed")
+    os.makedirs(os.path.dirname(seed), exist_ok=True)
+    wd.write(seed, files=["eig", "amn", "mmn"])
+    copy.deepcopy(objs["WIN"]).write(seed)
+    files = files_form(rng, [("win", "eig", "amn", "mmn")[i] for i in rng.permutation(4)])
+    w = dict(wit, from_w90_files=list(files))
+    with warnings.catch_warnings():
+        warnings.simplefilter("ignore")
+        w2 = WannierData.from_w90_files(seed, files=files, bkvec=bk)
+    ctx.count("wandata_from_w90_files")
+    mech = "WannierData.write/from_w90_files"
+    ctx.ev()
+    if not all(w2.has_file(k) for k in ("eig", "amn", "mmn", "bkvec", "chk")):
+        ctx.violation(mech, f"files loaded: {sorted(w2._files)}", w)
+        return
+    e, a, m = objs["EIG"], objs["AMN"], objs["MMN"]
+    ctx.ev()
+    got = (w2.eig.NK, w2.eig.NB, w2.amn.NB, w2.amn.NW, w2.mmn.NB, w2.mmn.NNB, w2.chk.num_kpts)
+    if got != (e.NK, e.NB, a.NB, a.NW, m.NB, m.NNB, e.NK):
+        ctx.violation(mech, f"sizes (NK, NB eig, NB amn, NW, NB mmn, NNB, chk.num_kpts) = {got}", w)
+        return
+    fixed_close(ctx, mech, e.data, w2.eig.data, 12, "eig", w)
+    fixed_close(ctx, mech, a.data, w2.amn.data, 12, "amn", w)
+    fixed_close(ctx, mech, m.data, w2.mmn.data, None, "mmn", w)
+
+
+def wide_objects(ctx, tmp, rng, lattice, scale, wit):
+    """three-digit numbers of bands and Wannier functions (text and npz); separate objects on a mesh of one or two k-points, so
+    that the histories of the case, which write the .mmn file a dozen times, stay cheap"""
+    from wannierberri.w90files import EIG, AMN, MMN
+    from wannierberri.w90files.bkvectors import BKVectors
+    mp = [(1, 1, 1), (2, 1, 1), (1, 1, 2)][int(rng.integers(3))]
+    NK = int(np.prod(mp))
+    bk = BKVectors.from_kpoints(2 * np.pi * np.linalg.inv(lattice).T, np.array(mp), kmesh(rng, mp))
+    NB = int(rng.integers(100, 131))
+    NW = int(rng.integers(100, NB + 1)) if rng.random() < 0.6 else int(rng.integers(1, 4))
+    NBm = int(rng.integers(100, 104))
+    wobjs = dict(EIG=EIG(data=[np.sort(rng.normal(size=NB)) * 5 * scale for _ in range(NK)]),
+                 AMN=AMN(data=[cplx(rng, (NB, NW), scale) for _ in range(NK)]),
+                 MMN=MMN(data=[cplx(rng, (bk.NNB, NBm, NBm), scale) for _ in range(NK)]))
+    w = dict(wit, mp_grid=mp, NK=NK, NNB=bk.NNB, NB=NB, NW=NW, NB_of_mmn=NBm)
+    text_roundtrip(ctx, tmp, wobjs, bk, dict(w, variant="three-digit NB / NW"), rng, stem="wide")
+    npz_roundtrip(ctx, tmp, {"wide" + k: v for k, v in wobjs.items()}, w, sparse=False)
+    ctx.count("size_wide")
+
+
+MANY_K = [(5, 5, 4), (10, 10, 1), (1, 1, 64), (6, 6, 3), (4, 5, 5), (2, 50, 1)]
+
+
 def case(ctx, rng, idx, state):
     # real process pools in one case out of ten, the serial stand-in otherwise
-    if idx % 10 == 3:
+    real_pool = idx % 10 == 3
+    if real_pool:
         state["mp"].Pool = state["real_pool"]
         ctx.count("cases_with_real_multiprocessing_pool")
     else:
         state["mp"].Pool = SerialPool
         ctx.count("cases_with_serial_pool_standin")
+    names = None
+    wide = idx % 16 == 1                 # (widening) additional objects with >= 100 bands / Wannier functions, see wide_objects
     if idx % 8 == 5:
         mp, NB = (1, 1, 1), 1            # one-line .eig file
+        NW = 1
+    elif idx % 16 == 9:                  # (widening) >= 100 k-points
+        mp = MANY_K[int(rng.integers(len(MANY_K)))]
+        NB = int(rng.integers(1, 3))
+        NW = int(rng.integers(1, NB + 1))
+        ctx.count("size_many_k")
     else:
         mp = MP_GRIDS[int(rng.integers(len(MP_GRIDS)))]
         NB = int(rng.integers(1, 9))
+        NW = int(rng.integers(1, NB + 1))
     NK = int(np.prod(mp))
-    NW = int(rng.integers(1, NB + 1))
     if rng.random() < 0.5:
         kind, lattice = gen_systems.bravais_lattice(rng, ["cubic", "tetragonal", "orthorhombic", "hexagonal", "fcc", "bcc",
                                                          "monoclinic"][int(rng.integers(7))])
     else:
         kind, lattice = "random", gen_systems.random_lattice(rng)
-    scale = float(rng.choice([1.0, 1.0, 1e-3, 1e3, 1e-11]))
+    scale = float(rng.choice([1.0, 1.0, 1e-3, 1e3, 1e-11, 1e5]))
     big = NK * NB * NB > 600
-    names = [n for n in RECIPES if not (big and n in ("UXU", "UIU", "UHU") and rng.random() < 0.7)]
+    if names is None:
+        names = [n for n in RECIPES if not (big and n in ("UXU", "UIU", "UHU") and rng.random() < 0.7)]
     wit = dict(mp_grid=mp, NK=NK, NB=NB, NW=NW, lattice=kind, scale=scale)
     tmp = tempfile.mkdtemp(dir=os.path.join(env.WORK, "c19"))
+    objs_counts.clear()
     try:
         objs, bk, kpts = build_objects(rng, mp, NB, NW, lattice, None, scale, names)
+        snapshot = copy.deepcopy(objs)
         wit["NNB"] = bk.NNB
         text_roundtrip(ctx, tmp, objs, bk, wit, rng)
-        npz_roundtrip(ctx, tmp, objs, wit, sparse=False)
+        # (widening review) the same files read with the documented reader options; other forms of the constructor arguments
+        reader_options(ctx, tmp, objs, bk, kpts, lattice, mp, wit, rng, real_pool)
+        ctor_forms(ctx, tmp, objs, bk, wit, rng)
+        equals_controls(ctx, objs, wit, rng)
+        if wide:
+            state["mp"].Pool = SerialPool       # (the pool is not what this class varies; forking is the main cost of a case)
+            wide_objects(ctx, tmp, rng, lattice, scale, wit)
+            state["mp"].Pool = state["real_pool"] if real_pool else SerialPool
+        npz_roundtrip(ctx, tmp, objs, wit, sparse=False, rng=rng)
         # (added after a seeded change was missed) two multi-step histories of the same objects:
         # (a) the per-k dictionaries are keyed by the k index - their insertion order must not matter to the writers;
         # (b) save to npz -> load -> write the text file -> read it: the chain must still reproduce the original data
@@ -526,10 +1227,19 @@ def case(ctx, rng, idx, state):
         ctx.count("text_roundtrip_permuted_dict_order")
         ctx.count("text_roundtrip_after_npz_reload")
         container_roundtrip(ctx, tmp, rng, objs, bk, wit, sparse=False)
-        if rng.random() < 0.35:
+        # (widening review) objects and containers with a history, container options (always with the serial stand-in: the real
+        # pool has been used by every reader call above)
+        state["mp"].Pool = SerialPool
+        object_histories(ctx, tmp, objs, bk, wit, rng)
+        container_options(ctx, tmp, rng, objs, bk, wit)
+        container_select_bands(ctx, tmp, rng, objs, bk, kpts, lattice, mp, wit)
+        if "WIN" in objs:     # (from_w90_files reads the .mmn file with the default npar = all cores: serial stand-in)
+            container_from_text(ctx, tmp, rng, objs, bk, wit)
+        if rng.random() < 0.35 and "SOC" in objs:
             objs_dw = build_objects(rng, mp, NB, NW, lattice, None, scale, ("EIG", "AMN", "MMN", "CheckPoint"))[0] \
                 if rng.random() < 0.6 else None
             soc_container_roundtrip(ctx, tmp, rng, objs, objs_dw, wit)
+        inputs_unchanged(ctx, snapshot, objs, wit)
         if NK > 1:
             nsel = int(rng.integers(1, NK))
             sel = sorted(int(i) for i in rng.choice(NK, nsel, replace=False))
@@ -539,12 +1249,24 @@ def case(ctx, rng, idx, state):
             cp = sobjs["CheckPoint"]
             if not cp.wannierised:      # a sparse container is only recognisable through a sparse v_matrix
                 cp.v_matrix = {ik: cplx(rng, (NB, NW)) for ik in sel}
-            npz_roundtrip(ctx, tmp, sobjs, wit2, sparse=True)
+            npz_roundtrip(ctx, tmp, sobjs, wit2, sparse=True, rng=rng)
             container_roundtrip(ctx, tmp, rng, sobjs, sbk, wit2, sparse=True)
     finally:
+        for k, v in objs_counts.items():
+            ctx.count(k, v)
         shutil.rmtree(tmp, ignore_errors=True)
     ctx.nontrivial((mp, NB, NW, bk.NNB, kind, scale))
     ctx.sample(wit)
+
+
+WIDENING_COUNTERS = (
+    "eig_selected_kpoints", "mmn_selected_kpoints", "amn_npar_varied", "mmn_npar_varied", "mmn_chunk_exact", "mmn_chunk_partial",
+    "mmn_reader_bkvec_reloaded", "mmn_reader_sparse_bkvec", "ctor_forms", "equals_controls", "dict_roundtrip",
+    "npz_after_select_kpoints", "text_after_select_bands", "npz_twice", "npz_pathlib", "text_second_generation",
+    "text_second_generation_bytes", "mmn_permuted_file_written_again", "inputs_unchanged_checked", "wandata_to_npz_subset",
+    "wandata_from_npz_options", "wandata_from_npz_missing_is_error", "wandata_from_npz_irreducible_given", "wandata_reused",
+    "wandata_relative_seedname", "wandata_after_select_bands", "wandata_from_w90_files", "size_many_k", "size_wide",
+    "amn_real_dtype", "mmn_real_dtype", "amn_some_optional_tags", "data_with_special_values", "data_with_all_zero_kpoint")
 
 
 if __name__ == "__main__":
@@ -559,16 +1281,30 @@ if __name__ == "__main__":
         tiers=dict(quick=dict(cases=96, shards=8, time=900), thorough=dict(cases=4000, shards=16, time=3000)),
         rule="file objects built from random arrays: Gamma-centred meshes (1,1,1)...(3,3,3) incl. anisotropic ones in random "
              "k order, NB 1-8, NW 1-NB, NNB from the real b-vector search on random/Bravais lattices, data magnitudes "
-             "1e-11...1e3, optional tags present/absent, random bk_reorder, full and sparse-k objects; every case holds random "
+             "1e-11...1e5, optional tags present/absent/partly present, random bk_reorder, full and sparse-k objects; one case in 16 with "
+             "100-128 k-points, one in 16 with additional 100-130 band / Wannier-function objects; real-valued AMN/MMN data, exact "
+             "zeros / -0.0 / half-digit values / an all-zero k-point sprinkled in; every object is also read with the documented reader "
+             "options, rebuilt from other argument forms, saved after select_kpoints / select_bands / a first round trip, and the "
+             "container saved with file subsets, re-used, after select_bands, and re-read from its text files; every case holds random "
              "non-zero data, so each is non-trivial; distinct by (mp_grid, NB, NW, NNB, lattice kind, magnitude)",
         assumptions=["EIG/AMN documented format %17.12f -> |diff| <= 0.5e-12 (+2 ulp); MMN prints repr -> exact; npz exact",
-                     "readers are called with npar=1; in 9 cases out of 10 multiprocessing.Pool is replaced by a serial stand-in (map/close/join) to avoid forking, the real pool is used in the remaining cases",
+                     "the basic round trips call the readers with npar=1 (the reader-option class varies npar); in 9 cases out of 10 "
+                     "multiprocessing.Pool is replaced by a serial stand-in (map/close/join, same argument check) to avoid forking; in the "
+                     "remaining cases the real pool is used for the basic round trips, the seeded histories and the reader options "
+                     "(npar 1-2), while the histories added by the widening review always use the stand-in",
                      "the permuted-neighbour mmn file is produced by the harness from the written file",
                      "WannierData.write is called with files=['eig','amn','mmn'] for the deciding comparison; the default "
                      "files=None call is probed separately",
-                     "classes without an own equals (CheckPoint, WIN) are compared attribute-by-attribute only"],
+                     "classes without an own equals (CheckPoint, WIN) are compared attribute-by-attribute only",
+                     "equals controls: 'within tolerance' = one element changed by 0.3*tolerance (absolute), 'beyond' = by "
+                     "10*tolerance + 1e-3*|value|; tolerance default (1e-8), 1e-3, 1e-10",
+                     "second generation text files are compared token by token (numbers by value: the readers lose the sign of a "
+                     "zero); byte identity of .eig/.amn is only demanded for |values| < 1000 (<= 15 significant digits)",
+                     "BKVectors.select_kpoints (leaves kptirr stale, property C22) and the boolean-mask form of "
+                     "WannierData.select_bands (AssertionError unless all bands are selected) are not drawn",
+                     "WannierData.from_w90_files is only run with the serial pool stand-in (it reads .mmn with npar = all cores)"],
         required_counters=("text_eig", "text_amn", "text_mmn", "eig_single_line", "mmn_permuted_file", "npz_sparse",
                            "wandata_npz", "wandata_write", "wandata_sparse", "wandata_soc", "own_equals_called", "cases_with_real_multiprocessing_pool")
-        + tuple(f"npz_{n}" for n in RECIPES),
+        + tuple(f"npz_{n}" for n in RECIPES) + WIDENING_COUNTERS,
         extra_coverage=dict(savable_classes_found=found, not_constructible=not_constructible),
     )
